@@ -373,9 +373,12 @@ class Model(object):
                 out.append(t)
                 continue
             if t.s in t.hs:
-                self.f.add("self-ref-suppressed" if t.org == t.s else "mutual-ref-suppressed")
+                kind = "obj" if m.params is None else "fn"
+                self.f.add(("self-ref-suppressed-" if t.org == t.s else "mutual-ref-suppressed-") + kind)
                 if t.va:
                     self.f.add("suppressed-via-arg")
+                if kind == "fn" and inp and inp[-1].s == "(":
+                    self.f.add("suppressed-name-before-paren")
                 out.append(t)
                 continue
             self.tick()
@@ -407,9 +410,17 @@ class Model(object):
                 self.f.add("use-redefined")
             if t.org is not None:
                 self.f.add("rescan-nested")
+            prev = out[-1] if out else None
+            nxt = inp[-1] if inp else None
             if not res:
                 carry_ws = t.ws
+                if prev is not None and nxt is not None and not (t.ws or nxt.ws) and not glue_ok(prev.s, nxt.s):
+                    self.f.add("adjacent-would-paste")
             else:
+                if prev is not None and not t.ws and not glue_ok(prev.s, res[0].s):
+                    self.f.add("adjacent-would-paste")
+                if nxt is not None and not nxt.ws and not glue_ok(res[-1].s, nxt.s):
+                    self.f.add("adjacent-would-paste")
                 res[0] = res[0].cp(ws=t.ws)
                 inp.extend(reversed(res))
         return out
@@ -508,6 +519,8 @@ class Model(object):
             self.f.add("stringify-empty")
         elif len(toks) > 1:
             self.f.add("stringify-multi-tok")
+            if any(t.org is not None for t in toks):
+                self.f.add("stringify-operand-from-body")
         self.f.add(what)
         return Tok("str", '"' + s + '"')
 
@@ -534,6 +547,10 @@ class Model(object):
                     self.f.add("lit-has-param-name")
                 if any(w in self.macros for w in words):
                     self.f.add("lit-has-macro-name")
+                if "#" in t.s:
+                    self.f.add("lit-has-hash")
+                if re.search(r"[ \t]", t.s):
+                    self.f.add("lit-has-space")
 
     def expanded_arg(self, args, idx, cache):
         if idx not in cache:
